@@ -26,6 +26,10 @@ def run(ctx):
     try:
         arith(ctx, m)
         unpaired(ctx, m)
+        # geometric / harmonic intervals are exp / reciprocal of the arithmetic ones as identical DAGs (C05's identities, run here
+        # too): with them the scaling behaviour of the two wrappers reduces to the arithmetic identities above
+        from props import c05
+        c05.oblig(ctx, m)
         ieee(ctx, m)
     except mir.Stuck as e:
         m.stuck('C16:M', 'unsupported construct: %s' % e)
@@ -127,6 +131,7 @@ def arith(ctx, m):
 def unpaired(ctx, m):
     res = c04.unpaired_paths(m)
     by = {}
+    allu = {}
     for r in res:
         if r.kind == 'stuck':
             raise mir.Stuck(r.value[1])
@@ -135,6 +140,10 @@ def unpaired(ctx, m):
             k = E.pc_kind(r.pc)
             t = bool(any(apps_in(b, 'Tq') for b in bounds))
             by.setdefault((k, t), (r.pc, variant, bounds))
+            allu.setdefault((k, t), []).append((r.pc, variant, bounds))
+    # a data-dependent shortcut (threshold, clamp) shows up as an Ok path whose bounds carry no critical value at all: such a path
+    # cannot be equivariant together with the regular one; it is compared with the regular path below through the cross pairs
+    extra_paths = [(r.pc, E.interval_parts(r.value)) for r in res if r.kind == 'return' and E.is_ok(r.value) and not any(apps_in(b) for b in E.interval_parts(r.value)[1])]
     Sa, Qa, na, ma, va = spec_terms('a')
     Sb, Qb, nb, mb, vb = spec_terms('b')
     lam, d = T.var('lam'), T.var('d')
@@ -181,6 +190,22 @@ def unpaired(ctx, m):
         hyc = [abs_c(c) for c in nokind(pc0)] + [r(abs_c(c)) for c in nokind(pc0)] + base + [T.mk('fgt', lam, T.fconst(0))]
         m.submit('C16:unpaired:scale:' + tz, hyc, T.and_(T.mk('feq', r(ab[0]), T.mk('fmul', lam, ab[0])), T.mk('feq', r(ab[1]), T.mk('fmul', lam, ab[1]))), key='C16:unpaired:scale', timeout=240,
                  note='CI(lambda a, lambda b) = lambda CI(a, b) for the same critical value')
+        # cross pairs with any further two-sided Ok path (original on one path, negated data on the other): the mirror clause
+        ngu = dict(scaled(T.fconst(-1), 'a'))
+        ngu.update(scaled(T.fconst(-1), 'b'))
+        gneg = lambda x: rename(x, ngu)
+        others = [p for p in allu.get((0, t), [])[1:]] + [(pc_, 'TwoSided', bs_) for pc_, (vr_, bs_) in extra_paths if vr_ == 'TwoSided' and t]
+        for j, (pcj, _, bj) in enumerate(others):
+            aj = [abs_c(x) for x in bj]
+            for direction, (pa, ba, pb, bb) in (('orig-regular', (pc0, ab, pcj, aj)), ('orig-extra', (pcj, aj, pc0, ab))):
+                hyx = [abs_c(c) for c in nokind(pa)] + [gneg(abs_c(c)) for c in nokind(pb)] + base
+                m.submit('C16:unpaired:negate:cross-path%d:%s:%s' % (j, direction, tz), hyx, T.and_(T.mk('feq', gneg(bb[0]), T.mk('fneg', ba[1])), T.mk('feq', gneg(bb[1]), T.mk('fneg', ba[0]))),
+                         key='C16:unpaired:negate', timeout=180, vacuity=False, note='negating both samples mirrors the interval, whichever branch either evaluation takes')
+            # an Ok path for the negated data where the original data gives an error (or vice versa) breaks the mirror clause as well:
+            # the negated state must satisfy the same path condition
+            hyx = [abs_c(c) for c in nokind(pcj)] + base
+            m.submit('C16:unpaired:negate:path%d-closed-under-negation:%s' % (j, tz), hyx, T.and_(*[gneg(abs_c(c)) for c in nokind(pcj)]) if nokind(pcj) else T.bconst(True),
+                     key='C16:unpaired:negate', timeout=180, vacuity=False, note='if the data takes this branch, so does the negated data')
         sh = dict(shifted(d, 'a'))
         sh.update(shifted(d, 'b'))
         h = lambda x: rename(x, sh)
